@@ -1,5 +1,76 @@
 (* C17 driver: ENC <bytes> | DEC <str> | U8D <bytes> | U8E <str> | HEXE <str> | HEXD <str>
-   output: V<str> | B<bytes> | E *)
+   output: V<str> | B<bytes> | E
+   JSON  <text> <doc>   the extracted MODEL: create_structure then encode_from_state from a fresh
+                        store with the theorem's fuel; V<compact text> | N (no value) | OOF (out of
+                        fuel) | OFFDOMAIN (duplicate keys or a leaf that is a model handle name)
+   JSONS <text> <doc>   the extracted SPEC: normalise; V<compact text> | N
+   <text> is the JSON text (used by the implementation only); <doc> is the same document, already
+   parsed, in prefix notation, tokens separated by one space:
+     n | t | f | #<str> (number, its to_string text) | s<str> | a<count> item* | o<count> (k<str> value)*
+   Objects arrive in serde_json's Map iteration order (keys sorted by bytes = by code points).
+   The printer below is serde_json's compact writer (no sorting: the order is the model's). *)
+let parse_doc (field : string) : json =
+  let toks = Array.of_list (String.split_on_char ' ' field) in
+  let pos = ref 0 in
+  let next_tok () = let t = toks.(!pos) in incr pos; t in
+  let rest t = String.sub t 1 (String.length t - 1) in
+  let rec value () =
+    let t = next_tok () in
+    match t.[0] with
+    | 'n' -> JNull
+    | 't' -> JBool true
+    | 'f' -> JBool false
+    | '#' -> JNum (str_of_field (rest t))
+    | 's' -> JStr (str_of_field (rest t))
+    | 'a' ->
+        let n = int_of_string (rest t) in
+        let acc = ref [] in
+        for _ = 1 to n do let v = value () in acc := v :: !acc done;
+        JArr (List.rev !acc)
+    | 'o' ->
+        let n = int_of_string (rest t) in
+        let acc = ref [] in
+        for _ = 1 to n do
+          let k = next_tok () in
+          if k.[0] <> 'k' then failwith "key expected";
+          let v = value () in
+          acc := (str_of_field (rest k), v) :: !acc
+        done;
+        JObj (List.rev !acc)
+    | _ -> failwith "bad token"
+  in
+  let j = value () in
+  if !pos <> Array.length toks then failwith "trailing tokens";
+  j
+
+let json_text (j : json) : string =
+  let out = ref [] in
+  let emit c = out := c :: !out in
+  let emits s = String.iter (fun ch -> emit (Char.code ch)) s in
+  let pstr (s : str) =
+    emit 34;
+    List.iter (fun cn ->
+      let c = int_of_n cn in
+      if c = 34 then emits "\\\"" else if c = 92 then emits "\\\\"
+      else if c = 8 then emits "\\b" else if c = 12 then emits "\\f"
+      else if c = 10 then emits "\\n" else if c = 13 then emits "\\r" else if c = 9 then emits "\\t"
+      else if c < 32 then emits (Printf.sprintf "\\u%04x" c)
+      else emit c) s;
+    emit 34 in
+  let rec go j =
+    match j with
+    | JNull -> emits "null"
+    | JBool b -> emits (if b then "true" else "false")
+    | JNum t -> List.iter (fun c -> emit (int_of_n c)) t
+    | JStr s -> pstr s
+    | JArr l -> emit 91; List.iteri (fun i x -> if i > 0 then emit 44; go x) l; emit 93
+    | JObj m -> emit 123; List.iteri (fun i (k, x) -> if i > 0 then emit 44; pstr k; emit 58; go x) m; emit 125
+  in
+  go j;
+  match List.rev !out with
+  | [] -> "e"
+  | l -> String.concat "." (List.map string_of_int l)
+
 let () = iter_lines (fun line ->
   match fields line with
   | ["ENC"; b] -> print_endline ("V" ^ field_of_str (b64_encode (str_of_field b)))
@@ -8,4 +79,20 @@ let () = iter_lines (fun line ->
   | ["U8E"; s] -> print_endline ("B" ^ field_of_str (utf8_encode (str_of_field s)))
   | ["HEXE"; s] -> (match cmd_hex_encode [str_of_field s] with RVal v -> print_endline ("V" ^ field_of_str v) | _ -> print_endline "E")
   | ["HEXD"; s] -> (match cmd_hex_decode [str_of_field s] with RVal v -> print_endline ("V" ^ field_of_str v) | _ -> print_endline "E")
+  | ["JSON"; _; d] ->
+      (match (try Some (parse_doc d) with _ -> None) with
+       | None -> print_endline "BADLINE"
+       | Some j ->
+           if not (json_wfb j && no_handle_leafb j) then print_endline "OFFDOMAIN"
+           else match roundtrip_model j with
+             | None -> print_endline "OOF"
+             | Some None -> print_endline "N"
+             | Some (Some r) -> print_endline ("V" ^ json_text r))
+  | ["JSONS"; _; d] ->
+      (match (try Some (parse_doc d) with _ -> None) with
+       | None -> print_endline "BADLINE"
+       | Some j ->
+           match normalise j with
+           | None -> print_endline "N"
+           | Some r -> print_endline ("V" ^ json_text r))
   | _ -> print_endline "BADLINE")
